@@ -1,3 +1,110 @@
-(* Properties_C01.v — placeholder while the de Boor invariant is being proved; see C01_Proofs.v *)
-From Coq Require Import ZArith List.
-From PS Require Import Arith EvalModel BSpline.
+(* Properties_C01.v — C01: evaluation equals the tensor-product B-spline sum it represents.
+   Statements only; proofs are in C01_Basis.v (one dimension: de Boor's recurrence with the margin walk and
+   re-indexing of bsplvb_simple), C01_Core.v (all dimensions: the odometer walk over the coefficient block) and
+   C01_Proofs.v (assembly, local support).
+
+   The statements hold over EVERY ordered field (Arith.OField: field laws, total order, rnd = identity); the
+   executed instance is Qc (exact rationals). The same polymorphic Gallina term (EvalModel.ndsplineeval),
+   instantiated with IEEE binary32/binary64 operations, is compared BITWISE with the C++ on every run; the gap
+   between the two instantiations is rounding, which is measured against exact rationals, not proved. *)
+From Coq Require Import ZArith List Bool Lia QArith Qcanon.
+From PS Require Import Arith EvalModel BSpline C04_Proofs OFieldKit C01_Basis C01_Core C01_Proofs.
+Import ListNotations.
+Local Open Scope Z_scope.
+
+Section C01.
+Context {A : Arith}.
+Variable F : OField A.
+Variable t : @table A.
+Variable xs : list (T A).
+Variable cs : list Z.
+
+Hypothesis Hne  : dims t <> [].                                    (* at least one dimension *)
+Hypothesis Hwf  : Forall (wf_dim (fun _ => True)) (dims t).        (* >= 2*order+2 knots, naxes = nknots-order-1, knots non-decreasing on [0,nknots) — NOTHING is assumed about the allocation padding outside *)
+Hypothesis Hrow : nth (ndim_of t - 1) (strides_of t) 0 = 1.        (* the last dimension is contiguous (row-major storage) *)
+Hypothesis Hlen : length xs = length (dims t).
+Hypothesis Hsc  : searchcenters t xs = CFound cs.                  (* center lookup succeeded *)
+Hypothesis Hreg : Forall2 eval_regular (dims t) xs.            (* not exactly on a repeated knot at the upper end of full support (D17) *)
+
+(* The evaluated value is the sum over ALL stored coefficients of coefficient times the product over
+   dimensions of the Cox–de Boor basis function of the stored order on the stored knots, right-continuous below
+   the upper end of the fully supported range and left-continuous from there upwards (BSpline.side_of) — in the
+   interior, in both margins, and exactly on knots. *)
+Theorem C01_eval_is_tensor_sum : ndsplineeval t xs cs 0 = spline_spec t xs (repeat O (ndim_of t)).
+Proof. exact (eval_is_tensor_sum F t xs cs Hne Hwf Hrow Hlen Hsc Hreg). Qed.
+
+(* hence the call operator too *)
+Theorem C01_call_operator_is_tensor_sum : call_operator t xs = spline_spec t xs (repeat O (ndim_of t)).
+Proof. unfold call_operator. rewrite Hsc. exact C01_eval_is_tensor_sum. Qed.
+End C01.
+
+(* One dimension, the heart of it: whatever interval the margin walk ends in, bsplvb_simple returns the n+1
+   Cox–de Boor functions B_{c-n..c, n}(x) of the CENTER interval — values that depend on the allocation padding
+   are exactly the ones the re-indexing discards. *)
+Theorem C01_local_basis : forall (A : Arith) (F : OField A) (kn : Z -> T A) (nknots : Z),
+  (forall i j, 0 <= i -> i <= j -> j < nknots -> OFieldKit.le (kn i) (kn j)) ->
+  forall (n : nat) (x : T A) (side : bool) (c : Z),
+  walk_post kn nknots n x side c (adjust_left kn nknots (Z.of_nat n) x c) ->
+  bsplvb_simple kn nknots n x c = map (fun i => Bfun kn side n (c - Z.of_nat n + Z.of_nat i) x) (seq 0 (S n)).
+Proof. intros A F kn nknots Hm n x side c W. exact (bsplvb_simple_B F kn nknots Hm n x side c W). Qed.
+
+(* All dimensions: the odometer walk over the (order+1)^ndim coefficient block is the nested sum. *)
+Theorem C01_core_is_block_sum : forall (A : Arith) (F : OField A) (t : @table A) (cs : list Z) (lbs : list (list (T A))),
+  dims t <> [] -> length lbs = ndim_of t ->
+  (forall i, (i < ndim_of t)%nat -> length (nth i lbs []) = S (nth i (orders_of t) O)) ->
+  nth (ndim_of t - 1) (strides_of t) 0 = 1 ->
+  core_generic t cs lbs = block_sum (coef t) lbs (strides_of t) (init_pos (orders_of t) (strides_of t) cs) one.
+Proof. intros A F t cs lbs. exact (core_generic_block F t cs lbs). Qed.
+
+(* ---------------------------------------------------------------------------------------------- *)
+(* Non-vacuity and the executed instance: exact rationals. *)
+Definition qz (z : Z) : Qc := Q2Qc (inject_Z z).
+Definition ex1_dim : @dimn QcA := @mkDim QcA 2%nat 8 5 1 (fun i => qz i).          (* order 2, knots 0..7 *)
+Definition ex1_tab : @table QcA := @mkTable QcA [ex1_dim] (fun i => qz (i * i + 1)). (* coefficients 1,2,5,10,17 *)
+
+Lemma ex1_wf : Forall (wf_dim (A := QcA) (fun _ => True)) (dims ex1_tab).
+Proof.
+  constructor; [|constructor]. unfold wf_dim, ex1_dim; cbn [d_order d_nknots d_naxes d_kn].
+  split; [lia|]. split; [lia|]. split; [auto|].
+  intros i j Hi Hij Hj. unfold qz. apply Qc_leb_le. unfold Qcle. cbn [this Q2Qc].
+  rewrite !Qred_correct. rewrite <- Zle_Qle. lia.
+Qed.
+
+(* a point in the fully supported interior, one in the left margin, the upper end of full support and the last knot *)
+Example C01_hypotheses_satisfiable :
+  forall x, In x [Q2Qc (7 # 2); Q2Qc (1 # 2); qz 5; qz 7] ->
+  exists cs, searchcenters ex1_tab [x] = CFound cs /\ Forall2 (@eval_regular QcA) (dims ex1_tab) [x] /\
+             ndsplineeval ex1_tab [x] cs 0 = spline_spec ex1_tab [x] [O].
+Proof.
+  intros x Hx.
+  assert (Hsc : exists cs, searchcenters ex1_tab [x] = CFound cs).
+  { cbn [In] in Hx. destruct Hx as [<-|[<-|[<-|[<-|[]]]]]; eexists; vm_compute; reflexivity. }
+  destruct Hsc as [cs Hsc]. exists cs. split; [exact Hsc|].
+  assert (Hreg : Forall2 (@eval_regular QcA) (dims ex1_tab) [x]).
+  { constructor; [|constructor]. unfold eval_regular. intros H.
+    cbn [In] in Hx. destruct Hx as [<-|[<-|[<-|[<-|[]]]]]; vm_compute in H; vm_compute; congruence. }
+  split; [exact Hreg|].
+  apply (C01_eval_is_tensor_sum QcA_OField ex1_tab [x] cs); try assumption.
+  - discriminate.
+  - exact ex1_wf.
+  - reflexivity.
+  - reflexivity.
+Qed.
+
+(* the hypothesis [eval_regular] cannot be dropped: exactly on a repeated knot at the upper end of the fully
+   supported range the recurrence runs on a zero-width interval (0/0; on Qc division by zero yields 0, in IEEE
+   arithmetic NaN). This is finding D17 (known_findings.json), replayed on the real code by the check. *)
+Definition ex2_kn (i : Z) : Qc := qz (if i <? 6 then i else i - 1).   (* 0 1 2 3 4 5 5 6 7 *)
+Definition ex2_tab : @table QcA := @mkTable QcA [@mkDim QcA 2%nat 9 6 1 ex2_kn] (fun _ => qz 1).
+Theorem C01_refuted_without_regularity :
+  searchcenters ex2_tab [qz 5] = CFound [5] /\
+  spline_spec ex2_tab [qz 5] [O] = qz 1 /\
+  ndsplineeval ex2_tab [qz 5] [5] 0 <> spline_spec ex2_tab [qz 5] [O].
+Proof. split; [vm_compute; reflexivity|]. split; [vm_compute; reflexivity|]. vm_compute. discriminate. Qed.
+
+Print Assumptions C01_eval_is_tensor_sum.
+Print Assumptions C01_call_operator_is_tensor_sum.
+Print Assumptions C01_local_basis.
+Print Assumptions C01_core_is_block_sum.
+Print Assumptions C01_hypotheses_satisfiable.
+Print Assumptions C01_refuted_without_regularity.
